@@ -165,6 +165,24 @@ func isLineMaxError(msg string) bool {
 	return err == nil && n > maxLineCol
 }
 
+// sameComment: offsets a and b lie inside the same COMMENT token of the stream toks
+// (a stream scanned with comments).
+func sameComment(toks []tokRec, a, b int) bool {
+	for i, t := range toks {
+		if t.Tok != token.COMMENT || t.Off > a {
+			continue
+		}
+		end := t.Off + len(t.Lit) + 2 // CRs are stripped from the literal: be generous
+		if i+1 < len(toks) && toks[i+1].Off > end {
+			end = toks[i+1].Off
+		}
+		if a >= t.Off && a < end {
+			return b >= t.Off && b < end
+		}
+	}
+	return false
+}
+
 // semiCanon computes, from a stream WITH comments, for every automatic semicolon that
 // directly follows a run of comments (= the semicolon was triggered by a comment
 // between the last token and the line end), the offset of the first comment of the run.
@@ -312,13 +330,35 @@ func checkScan(src []byte, mk masks) (rp report, err error) {
 				rp.Hostile = true
 			}
 		}
-		if (len(stdErrs) > 0) != (len(fork.Errs) > 0) {
+		forkErrs := fork.Errs
+		if lineMaxHit {
+			// The directive whose number is above the cap is taken differently by the two
+			// scanners from there on (go/scanner stops at the cap, the fork goes on and may
+			// complain about another part of the same directive, e.g. line 0 in
+			// "//line :0:7211610300"): complaints of the fork about a line/column number
+			// inside the same comment belong to the same finding.
+			forkErrs = nil
+			for _, fe := range fork.Errs {
+				same := false
+				if strings.HasPrefix(fe.Msg, "invalid line number: ") || strings.HasPrefix(fe.Msg, "invalid column number: ") {
+					for _, se := range std.Errs {
+						if isLineMaxError(se.Msg) && sameComment(stdC.Toks, se.Off, fe.Off) {
+							same = true
+						}
+					}
+				}
+				if !same {
+					forkErrs = append(forkErrs, fe)
+				}
+			}
+		}
+		if (len(stdErrs) > 0) != (len(forkErrs) > 0) {
 			if len(stdErrs) > 0 {
 				return rp, fmt.Errorf("[%s] go/scanner reports %d error(s), first at offset %d: %q; the forked scanner reports none",
 					mode, len(stdErrs), stdErrs[0].Off, stdErrs[0].Msg)
 			}
 			return rp, fmt.Errorf("[%s] the forked scanner reports %d error(s), first at offset %d: %q; go/scanner reports none",
-				mode, len(fork.Errs), fork.Errs[0].Off, fork.Errs[0].Msg)
+				mode, len(forkErrs), forkErrs[0].Off, forkErrs[0].Msg)
 		}
 		if len(stdErrs) > 0 {
 			continue // the statement only fixes the token stream when go/scanner reports no error
@@ -484,8 +524,8 @@ func TestCorpus(t *testing.T) {
 		t.Fatalf("corpus too small: %d files", len(files))
 	}
 	mk := currentMasks()
-	// quick: every 2nd file, rotated by seed; thorough: all
-	stride := rec.Scale(2, 1)
+	// quick: every 3rd file, rotated by seed; thorough: all
+	stride := rec.Scale(3, 1)
 	fails := 0
 	for i, path := range files {
 		if (i+int(rec.Seed()))%stride != 0 || !rec.Mine(i/stride) {
@@ -515,7 +555,7 @@ func TestCorpus(t *testing.T) {
 
 func TestSoup(t *testing.T) {
 	mk := currentMasks()
-	rec.Check(t, rec.Scale(30000, 300000), func(t *rapid.T) {
+	rec.Check(t, rec.Scale(20000, 300000), func(t *rapid.T) {
 		src := []byte(GenSoup(t, 24))
 		if !inDomain(src) {
 			return
@@ -584,7 +624,7 @@ func corpusWindow(t *rapid.T, label string, max int) []byte {
 
 func TestMutations(t *testing.T) {
 	mk := currentMasks()
-	rec.Check(t, rec.Scale(12000, 100000), func(t *rapid.T) {
+	rec.Check(t, rec.Scale(8000, 100000), func(t *rapid.T) {
 		base := corpusWindow(t, "file", rapid.SampledFrom([]int{120, 400, 1500}).Draw(t, "win"))
 		var src []byte
 		class := "mut-byte"
@@ -616,7 +656,7 @@ func TestMutations(t *testing.T) {
 // seed corpus below is executed.
 func FuzzScan(f *testing.F) {
 	if rec.ReplayOnly() {
-		return
+		f.Skip("replay only")
 	}
 	for _, s := range []string{
 		"package p\nfunc f() { x := 0x1p-2; _ = 'a' } // c\n", "x /* a\n */ y", "\ufeffa\r\n`r\r`", "1_0.5e+3i 0b12 08 0o 1__2",
